@@ -226,10 +226,18 @@ def run_learners(v, case, env, exp_calls, cand, split, use_fixed, order_seed, sc
     ish = mapgen.internal_shapes_arg(case)
     fixed_sets = [None]
     if use_fixed and cand:
-        a = cand[0]
-        n = case["sizes"][a]
-        fixed_sets = [{a: i} for i in range(n)]
+        # one axis, or (half of the time) every admissible axis pinned to an int; ints are given in negative form 40% of the time
+        axes = list(cand) if rng.random() < 0.5 else [cand[0]]
+        while len(axes) > 1 and np.prod([case["sizes"][a] for a in axes]) > 12:
+            axes.pop()
+        fixed_sets = []
+        for combo in itertools.product(*[range(case["sizes"][a]) for a in axes]):
+            fixed_sets.append({a: (i if rng.random() < 0.6 else i - case["sizes"][a]) for a, i in zip(axes, combo)})
         rng.shuffle(fixed_sets)
+        if any(x < 0 for fs in fixed_sets for x in fs.values()):
+            v.count("learner_sets_with_negative_ints")
+        if len(axes) > 1:
+            v.count("learner_sets_fixing_several_axes")
     w = dict(case=mapgen.describe(case), split_independent_axes=split, fixed_indices=[str(x) for x in fixed_sets])
     first = True
     nlearn = 0
@@ -333,6 +341,8 @@ def finalize(agg, tier, seed):
         floors.append(f"only {c.get('partitions:dict', 0)} partitions with the dict storage (< 30)")
     if c.get("learner_executions", 0) < 100:
         floors.append(f"only {c.get('learner_executions', 0)} learner executions (< 100)")
+    if c.get("learner_sets_with_negative_ints", 0) < 20 or c.get("learner_sets_fixing_several_axes", 0) < 10:
+        floors.append(f"learner sets with negative ints = {c.get('learner_sets_with_negative_ints', 0)} (< 20) / fixing several axes = {c.get('learner_sets_fixing_several_axes', 0)} (< 10)")
     if c.get("negative_step_selections", 0) < 50:
         floors.append(f"only {c.get('negative_step_selections', 0)} negative-step selections (< 50)")
     for k in ("rejection:unknown-axis", "rejection:index-out-of-range", "rejection:reduced-axis"):
